@@ -208,15 +208,29 @@ func (x *c18Exec) rangeHead(fr *c18Frame, b *cfg.Block) *cfg.Block {
 	switch xv.k {
 	case c18KTable:
 		return x.ruleHead(fr, rs, key, val, b.Succs[0], b.Succs[1])
-	case c18KValues:
-		// the abstract value list has one element
-		if fr.iter[rs] == 0 {
-			fr.iter[rs] = 1
+	case c18KSlice, c18KNil:
+		// a literal list: iterate its elements
+		if i := fr.iter[rs]; i < len(xv.elems) {
+			fr.iter[rs]++
 			if key != nil {
-				fr.env[key] = c18Val{k: c18KInt}
+				fr.env[key] = c18Val{k: c18KInt, i: int64(i)}
 			}
 			if val != nil {
-				fr.env[val] = c18Val{k: c18KStr, org: c18OElem}
+				fr.env[val] = xv.elems[i]
+			}
+			return b.Succs[0]
+		}
+		fr.iter[rs] = 0
+		return b.Succs[1]
+	case c18KValues:
+		// the witness list has x.s.ll elements
+		if i := int64(fr.iter[rs]); i < x.s.ll {
+			fr.iter[rs]++
+			if key != nil {
+				fr.env[key] = c18Val{k: c18KInt, i: i}
+			}
+			if val != nil {
+				fr.env[val] = c18Val{k: c18KStr, org: c18OElem, i: i}
 			}
 			return b.Succs[0]
 		}
